@@ -935,7 +935,8 @@ class VM:
         if isinstance(fn, InterpFunction):
             return self.call_interp(fn.node, fn.frame.glob, fn.frame, fn.defaults, fn.kwdefaults, args, kwargs, None)
         if isinstance(fn, types.MethodType) and (isinstance(fn.__self__, VM) or
-                                                 (type(fn.__self__).__module__ or '').startswith('symvm.')):
+                                                 (type(fn.__self__).__module__ or '').startswith('symvm.') or
+                                                 getattr(type(fn.__self__), '__symvm_native__', False)):
             return fn(*args, **kwargs)          # framework helpers (scheduler, ideal functions) run natively
         if isinstance(fn, types.MethodType):
             f = fn.__func__
